@@ -180,6 +180,8 @@ public:
 
 	void operator=(const HashMap& b)
 	{
+		if (this == &b)
+			return;
 		if (--_rc() == 0) {
 			clear();
 			asl_destroy((AtomicCount*)&a[1]);
